@@ -58,7 +58,7 @@ class C15(Prop):
                         ms.append({"kind": "any", "paths": [J.gjson_path(q)], "placeholder": ph2})
                         repl.append((q, json.loads(ph2)))
                     else:
-                        ret = r.choice(['"<c>"', "7", '{"z":1}'])
+                        ret = r.choice(['"<c>"', "7", '{"z":1}', "null"])
                         ms.append({"kind": "custom", "paths": [J.gjson_path(q)], "ret": ret})
                         repl.append((q, json.loads(ret)))
                 t = r.choice(G.TEST_NAMES)
